@@ -9,16 +9,16 @@
 EXTENDS Stream, Json, SequencesExt
 
 CONSTANTS GenWhat,      \* "rt" or "tot"
-          GenKinds,     \* helper kinds this TLC process generates
+          GenKinds, GenA, \* helper kinds / first parameters this TLC process generates
           GenMaxLen
 
 ASSUME GenWhat = "rt" =>
-         /\ \A hh \in {x \in RTHelpers : x.h \in GenKinds} : \A x \in ValsOf(hh) :
+         /\ \A hh \in {x \in RTHelpers : x.h \in GenKinds /\ x.a \in GenA} : \A x \in ValsOf(hh) :
               PrintT(<<"RT", ToJson([h |-> hh, v |-> x, bytes |-> Enc(hh, x), res |-> Result(hh, x), used |-> Used(hh, x)])>>)
          /\ \A n \in 0..GenMaxLen :
               PrintT(<<"CHUNKS", ToJson([n |-> n, c |-> SetToSeq(Compositions(n, MaxChunk))])>>)
 ASSUME GenWhat = "tot" =>
-         \A hh \in {x \in TotalHelpers : x.h \in GenKinds} : \A s \in Strs(L, Alphabet) :
+         \A hh \in {x \in TotalHelpers : x.h \in GenKinds /\ x.a \in GenA} : \A s \in Strs(L, Alphabet) :
               PrintT(<<"TOT", ToJson([h |-> hh, s |-> s, w |-> Parse(hh, s)])>>)
 
 GInit == h = 0 /\ v = 0 /\ src = 0 /\ pos = 0 /\ fields = 0 /\ buf = 0 /\ st = 0
